@@ -292,7 +292,7 @@ def main(argv):
     for i, (key, v) in enumerate(viols):
         k = (key, v["name"].split("[")[0], v.get("known"))
         seen_kind[k] = seen_kind.get(k, 0) + 1
-        if v.get("cross") or (seen_kind[k] <= 2 and len(keep) < 60):      # cross-checks always run
+        if v.get("cross") or (seen_kind[k] <= meta.get("replays_per_kind", 2) and len(keep) < meta.get("replays_max", 60)):      # cross-checks always run
             keep.append(i)
     dropped = len(viols) - len(keep)
     viols = [viols[i] for i in keep]
